@@ -143,7 +143,9 @@ def check_random(sub, item):
                 seen[fx] = c.key
         probs = {c.prob for c in cands}
         if len(probs) > 1:
-            sub.violation(f'draw-nonuniform:{key}', f'{label}: candidates are drawn with {len(probs)} different '
+            from .ref import unequal_completions
+            shape = 'unequal-completions:' if unequal_completions(desc) else ''
+            sub.violation(f'draw-nonuniform:{shape}{key}', f'{label}: candidates are drawn with {len(probs)} different '
                           f'probabilities {sorted(probs)[:3]}', {'desc': desc, 'query': 'draw-nonuniform'})
         z = comp.z
         block_cl = [z3.Or([z3.Not(z.var(v)) if v in x else z.var(v) for v in range(1, comp.support + 1)])
